@@ -373,3 +373,7 @@ func Note(label string) {
 		rpc(req{k: kNote, label: label})
 	}
 }
+
+// IsAbort reports whether a recovered panic value is the simulator's abort
+// signal (harness code that recovers panics must re-panic it).
+func IsAbort(r interface{}) bool { return r == interface{}(abortSentinel) }
